@@ -30,6 +30,16 @@ void run_ep(const char *op)
         h_snk_make(&k, &snk, aN(3) != 0, 4);
         size_t asize = (size_t)aN(5);
         if (!strcmp(op, "ep.cbc")) fin3(sts_cbc(&src, &snk), &k, &s);
+        else if (!strcmp(op, "ep.atmost")) fin3(sts_atmost(&src, &snk, (size_t)aN(5)), &k, &s);
+        else if (!strcmp(op, "ep.some")) fin3(sts_some(&src, &snk), &k, &s);
+        else if (!strcmp(op, "ep.octets")) {
+            /* the single-octet calls as they are: asked n times, each result reported (the driver's answer is passed on, zero included) */
+            for (uint64_t i = 0; i < aN(5) && i < 16; i++) {
+                unsigned char c = 0xEE; int rc = source_get_octet(&src, &c);
+                out_rc(rc); if (rc > 0) { out_n(c); out_rc(sink_put_octet(&snk, c)); } else { out_s("-"); out_s("-"); }
+            }
+            out_h(k.got, k.len); out_n(s.pos);
+        }
         else if (!strcmp(op, "ep.ncbc")) fin3(sts_n_cbc(&src, &snk, (size_t)aN(5)), &k, &s);
         else if (!strcmp(op, "ep.draincbc")) fin3(sts_drain_cbc(&src, &snk), &k, &s);
         else if (!strcmp(op, "ep.stsn")) fin3(sts_n(&src, &snk, (size_t)aN(5)), &k, &s);
